@@ -75,7 +75,10 @@ class Prop:
             args.append("-big")
         files, meta = self._run_go(args, self.dir)
         self.shards = meta["shards"]
-        self.extra_coverage = {"discarded_scenarios": meta.get("discarded", 0), "crashed_scenarios": meta.get("crashed", 0)}
+        self.extra_coverage = {"discarded_scenarios": meta.get("discarded", 0), "crashed_scenarios": meta.get("crashed", 0),
+                               "cookie_load_scenarios": sum(1 for c in meta["cases"] if any(e.get("flood") for e in c.get("evs") or [])),
+                               "cookie_replies_provoked": sum(e.get("cookies", 0) for c in meta["cases"] for e in c.get("evs") or []),
+                               "junk_datagrams_during_tun_writes": sum(e.get("junk_sent", 0) for c in meta["cases"] for e in c.get("evs") or [])}
         return files, meta["cases"]
 
     def _fails(self, shards, files, outputs):
@@ -169,6 +172,9 @@ class Prop:
                 notes.add((d.get("note") or ("raw" if d.get("raw") else "dg")).split("/")[-1])
                 if (d.get("note") or "").startswith("pre-restart"):
                     notes.add("pre-restart")
+        if pos < len(evs) and evs[pos].get("junk") and any(bytes([10, 66, 66, 66]) in base64.b64decode(w) or b"\x66" * 8 in base64.b64decode(w)
+                                                            for w in evs[pos].get("writes") or []):
+            return "unauthenticated-bytes-on-tun-after-cookie-load"
         if any(n.startswith("pre-restart") for n in notes) and pos < len(evs) and evs[pos].get("writes"):
             return "key-from-before-restart-accepted"
         if any("after-idle-across-expiry" in n for n in notes) and pos < len(evs) and evs[pos].get("writes"):
